@@ -34,6 +34,7 @@ def showCells : Option Rep.Cells → String
     | none => "dead"
 
 def b2s (b : Bool) : String := if b then "1" else "0"
+def showOB : Option Bool → String | some b => b2s b | none => "oob"
 
 def int? (s : String) : Option Int := s.toInt?
 def nat? (s : String) : Option Nat := s.toNat?
@@ -246,16 +247,18 @@ def step (st : St) (ts : List String) : St × String :=
     | some p => qry st fun r => if p.isEmpty then "err empty" else showIdx (lastIndexOf r.view p)
     | none => (st, "bad-op")
   | ["contains", h] => match unhex h with
-    | some p => qry st fun r => b2s (indexOf r.view p 0).isSome | none => (st, "bad-op")
+    | some p => qry st fun r => b2s (r.contains p) | none => (st, "bad-op")
+  | ["containsc", c] => match byte? c with
+    | some c => qry st fun r => b2s (r.containsChar c) | none => (st, "bad-op")
   | ["starts", h] => match unhex h with
     | some p => qry st fun r => b2s (r.startsWith p) | none => (st, "bad-op")
   | ["ends", h] => match unhex h with
     | some p => qry st fun r => b2s (r.endsWith p)
     | none => (st, "bad-op")
   | ["startsc", c] => match byte? c with
-    | some c => qry st fun r => b2s (r.buf.getD 0 0 == c) | none => (st, "bad-op")
+    | some c => qry st fun r => showOB (r.startsWithChar c) | none => (st, "bad-op")
   | ["endsc", c] => match byte? c with
-    | some c => qry st fun r => b2s (r.len > 0 && r.buf.getD (r.len - 1) 0 == c) | none => (st, "bad-op")
+    | some c => qry st fun r => showOB (r.endsWithChar c) | none => (st, "bad-op")
   | ["cmp", h] => match unhex h with
     | some p => qry st fun r =>
         match Rep.ofBytes p with
@@ -263,13 +266,12 @@ def step (st : St) (ts : List String) : St × String :=
         | none => "oob"
     | none => (st, "bad-op")
   | ["eqc", c] => match byte? c with
-    | some c => qry st fun r => b2s (r.len == 1 && r.buf.getD 0 0 == c) | none => (st, "bad-op")
+    | some c => qry st fun r => showOB (r.eqChar c) | none => (st, "bad-op")
   | ["at", a] => match nat? a with
-    | some a => qry st fun r => toString (r.buf.getD (a % (r.len + 1)) 0) | none => (st, "bad-op")
+    | some a => qry st fun r => match r.charAt (a % (r.len + 1)) with | some c => toString c | none => "oob"
+    | none => (st, "bad-op")
   | ["flags"] => qry st fun r =>
-      let c := r.buf.getD 0 0
-      let isTrue := r.len > 0 && !(r.view == [48]) && c != 78 && c != 110 && c != 102 && c != 70
-      s!"{b2s (r.len > 0)} {b2s (r.len == 0)} {b2s isTrue}"
+      s!"{b2s r.ok} {b2s r.isEmpty} {showOB r.isTrue}"
   | ["substring", a, b] => match nat? a, nat? b with
     | some a, some b => qry st fun r => let (i, n) := piece r.len a b; showO (r.substring i (i + n))
     | _, _ => (st, "bad-op")
